@@ -11,6 +11,7 @@ int vc_errno;
 #define errno vc_errno
 #include "src/arena.c"
 #include "contracts/arena.h"
+#include "contracts/abandon.h"
 static void draw(void) {
   g_claim_ok = vc_nondet_bool("g_claim_ok"); g_claim_idx = vc_nondet_size("g_claim_idx"); g_dirty_allzero = vc_nondet_bool("g_dirty_allzero");
   g_cm_allzero = vc_nondet_bool("g_cm_allzero"); g_cm_anyzero = vc_nondet_bool("g_cm_anyzero"); g_cm_already = vc_nondet_size("g_cm_already");
@@ -35,3 +36,9 @@ void h_manage_os_memory(void) {
   bool r = mi_manage_os_memory_ex2(g_region + g_roff, vc_nondet_size("size"), vc_nondet_bool("is_large"), vc_nondet_int("numa"), vc_nondet_bool("exclusive"), memid, aid);
   VC_REACH();
 }
+static void adraw(void) { g_was_set = vc_nondet_bool("g_was_set"); g_bm_claim_waszero = vc_nondet_bool("g_bm_claim_waszero"); g_cnt0 = vc_nondet_size("g_cnt0"); g_lcnt0 = vc_nondet_size("g_lcnt0"); g_slot = vc_nondet_size("g_slot"); g_has_prev = vc_nondet_bool("g_has_prev"); g_has_next = vc_nondet_bool("g_has_next"); }
+void h_clear_abandoned(void) { adraw(); mi_segment_t* s; bool r = _mi_arena_segment_clear_abandoned(s); VC_REACH(); }
+void h_mark_abandoned(void) { adraw(); mi_segment_t* s; _mi_arena_segment_mark_abandoned(s); VC_REACH(); }
+void h_clear_abandoned_at(void) { adraw(); mi_arena_t* a; mi_subproc_t* sp; mi_segment_t* s = mi_arena_segment_clear_abandoned_at(a, sp, vc_nondet_size("bitmap_idx")); VC_REACH(); }
+void h_os_clear_abandoned(void) { adraw(); mi_segment_t* s; bool r = mi_arena_segment_os_clear_abandoned(s, vc_nondet_bool("take_lock")); VC_REACH(); }
+void h_abandoned_visit(void) { mi_block_visit_fun* v; void* arg; bool r = mi_abandoned_visit_blocks((mi_subproc_id_t)0, vc_nondet_int("tag"), vc_nondet_bool("visit_blocks"), v, arg); VC_REACH(); }
